@@ -131,8 +131,11 @@ func runEngine(db []J, query J, qv int, max int, maxEvents int) (*engineRun, err
 	var outBuf strings.Builder
 	last := 0
 	p := prolog.New(strings.NewReader(""), &outBuf)
-	if err := p.Exec(prog); err != nil {
-		return r, fmt.Errorf("exec: %v", err)
+	asInit := opt("directive") == "1"
+	if !asInit {
+		if err := p.Exec(prog); err != nil {
+			return r, fmt.Errorf("exec: %v", err)
+		}
 	}
 	ctx, cancel := context.WithCancel(context.Background())
 	defer cancel()
@@ -168,6 +171,36 @@ func runEngine(db []J, query J, qv int, max int, maxEvents int) (*engineRun, err
 		r.events = append(r.events, map[string]J{"ev": "call", "goal": g, "out": outOf(&outBuf, &last)})
 	}
 	defer func() { engine.VerifHooks.OnCall = nil }()
+	if asInit {
+		// The query runs as an initialization goal of the SAME text as the clauses (whose variables have the same names as the
+		// query's: V1, V2, ..). Observable: the call ports up to the first answer, and whether there was one.
+		r.query = ":- initialization((" + jt.Render(query) + "))."
+		done := make(chan error, 1)
+		go func() { done <- p.ExecContext(ctx, prog+r.query) }()
+		var err error
+		select {
+		case err = <-done:
+		case <-time.After(wd(5 * time.Second)):
+			r.status = "hang"
+			stop = true
+			cancel()
+			return r, nil
+		}
+		if r.status != "" {
+			return r, nil
+		}
+		switch ex, isEx := err.(engine.Exception); {
+		case err == nil:
+			r.events = append(r.events, map[string]J{"ev": "ans", "out": outOf(&outBuf, &last)})
+		case isEx:
+			r.events = append(r.events, map[string]J{"ev": "end", "kind": "error", "ball": jt.NewCanon(nil).Term(ex.Term()), "out": outOf(&outBuf, &last)})
+		case strings.HasPrefix(err.Error(), "failed initialization goal"):
+			r.events = append(r.events, map[string]J{"ev": "end", "kind": "fail", "out": outOf(&outBuf, &last)})
+		default:
+			return r, fmt.Errorf("exec: %v", err)
+		}
+		return r, nil
+	}
 	sols, err := p.QueryContext(ctx, r.query)
 	if err != nil {
 		return r, fmt.Errorf("query: %v", err)
@@ -302,6 +335,16 @@ func engineHandle(c map[string]J) map[string]J {
 		return map[string]J{"status": "discard", "why": "var-order-dependent", "input": input}
 	}
 	want := normEvents(exp)
+	if opt("directive") == "1" {
+		// an initialization goal is run for its first solution: the events up to the first answer, whose bindings nobody sees
+		for i, e := range want {
+			if e["ev"] == "ans" {
+				delete(e, "b")
+				want = want[:i+1]
+				break
+			}
+		}
+	}
 	// round-trip observed events through JSON so that both sides have the same dynamic types
 	var got []map[string]J
 	bs, _ := json.Marshal(r.events)
